@@ -207,8 +207,8 @@ def rule_apply_window(chk: Check, model: Model, rid: str):
         ok = w[0] == "comp" and w[1] == "dict" and w[2][0] == "tuple"
         if ok:
             k, v = w[2][1]
-            c = [x for x in T.walk(k) if x[0] == "elem"]
-            ok = bool(c) and k == T.mk_attr(T.mk_attr(c[0], "output_node"), "name") and mentions(c[0][1], "inputs") and v[0] == "call" and T.call_name(v).endswith(".to_window")
+            c = [x for x in T.walk(k) if T.dict_value(x) is not None] or [x for x in T.walk(k) if x[0] == "elem"]
+            ok = bool(c) and k == T.mk_attr(T.mk_attr(c[0], "output_node"), "name") and mentions(c[0], "inputs") and v[0] == "call" and T.call_name(v).endswith(".to_window")
             ok = ok and any(x == ("tuple", (T.mk_attr(T.mk_attr(c[0], "output_node"), "name"), T.mk_attr(T.mk_attr(c[0], "input_node"), "name"))) for x in T.walk(v))
         chk.add(rid, "WindowedVertex.windows keyed by sender", bool(ok), "each vertex must get, per input connection, the window of (sender, receiver) keyed by the sender's name", chk.loc(f_aw, wv[0].node))
     else:
